@@ -345,6 +345,41 @@ _save_cases = ([_save_node_case(Junction, iso) for iso in (False, True)] + [_sav
                # a link in a part cut off from every source keeps the status it has (isolation is not a status)
                [_save_link_case(c, LinkStatus.Open, LinkStatus.Active, True) for c in (Pipe, HeadPump, PowerPump, PRValve)])
 
+class _NamesView(NativeModel):
+    """the model as initialize_results_dict sees it: nodes() and links() as (name, element) pairs"""
+
+    def __init__(self, nodes, links):
+        self._n, self._l = nodes, links
+
+    def nodes(self):
+        return [(n, None) for n in self._n]
+
+    def links(self):
+        return [(n, None) for n in self._l]
+
+
+def _init_results_case():
+    def build(cx):
+        # names chosen so that neither alphabetical nor kind-wise order equals the registration order
+        nodes, links = ["n3", "tank", "a_junction", "R"], ["pump_b", "pipe_a", "valve", "pump_a", "zz"]
+        cx.target(hyd.initialize_results_dict, _NamesView(nodes, links))
+
+        def post(out):
+            if not out.returned:
+                return []
+            nr, lr = out.value
+            ok_keys = list(nr) == ["head", "demand", "pressure", "leak_demand"] and list(lr) == ["flowrate", "velocity", "status", "setting"]
+            ok_n = all(list(nr[k]) == nodes and all(v == [] for v in nr[k].values()) for k in nr)
+            ok_l = all(list(lr[k]) == links and all(v == [] for v in lr[k].values()) for k in lr)
+            lists = [v for d_ in list(nr.values()) + list(lr.values()) for v in d_.values()]
+            return [("the_tables_of_the_results_object_exist", ok_keys),
+                    ("every_node_has_one_empty_list_per_node_table_in_registration_order", ok_n),
+                    ("every_link_has_one_empty_list_per_link_table_in_registration_order", ok_l),
+                    ("no_two_entries_share_a_list", len({id(v) for v in lists}) == len(lists))]
+        cx.ensure(post)
+    return Case("four_nodes_five_links", build, crosscheck=False)
+
+
 CONTRACTS = [
     Contract(_q, P + ["C08", "C05", "C06", "C02", "C07", "C16"], _store_cases, models=amlmodel.build_models, sum_specs=_store_sum_specs,
              trusted=["aml Var/Param .value is the solved value loaded into the model (DESIGN 2.5, C15)",
@@ -353,6 +388,7 @@ CONTRACTS = [
     Contract("wntr.sim.hydraulics:save_results", P + ["C06", "C08", "C16", "C02", "C05", "C07"], _save_cases, models=_coeff_model,
              trusted=["RegInv (C14): typed iterators enumerate exactly the registered elements",
                       "HeadPump.get_head_curve_coefficients returns A>0, B>=0, C>0 (its own contract, C02)"]),
+    Contract("wntr.sim.hydraulics:initialize_results_dict", P + ["C16"], [_init_results_case()]),
 ]
 
 
